@@ -43,13 +43,19 @@ func vJSONSnap(r *vRunner, o vOp) {
 	}
 	input := vInput(o.Form, doc)
 	j, err := validateJSON(input)
+	// the model is handed the input as the CALLER gave it: text as is, a Go value as json.Marshal(value) computed
+	// here (not by the library); a value that cannot be marshalled is handed over as an invalid text
 	seen := doc
-	if s, ok := input.(string); ok {
-		// a Go string is validated as JSON text (also when it came from form "value")
-		seen = []byte(s)
-	}
-	if err == nil {
-		seen = append([]byte{}, j...)
+	switch v := input.(type) {
+	case string:
+		seen = []byte(v)
+	case []byte:
+	default:
+		if mj, merr := json.Marshal(v); merr == nil {
+			seen = mj
+		} else {
+			seen = []byte("!unmarshalable")
+		}
 	}
 	fmt.Fprintf(r.w, "op jsonsnap doc=%s width=%d indent=%s sort=%s\n",
 		vhex(seen), width, vhex([]byte(indent)), vb(sortKeys))
